@@ -48,6 +48,37 @@ def body_of(fn):
     return h["body"] if h else None
 
 
+def _callee_key(x):
+    if x.get("e") == "mcall":
+        return x.get("key")
+    if x.get("e") == "call":
+        f = x.get("f") or {}
+        if f.get("e") == "path" and f.get("res") != "ctor":
+            return f.get("tdkey") or f.get("key")
+    return None
+
+
+def splice(F, node, chain=()):
+    """copy of an HIR tree in which every call to a TRANSPARENT (new, not yet reviewed) function is replaced by an `inlined` node holding the call's
+    argument expressions and the callee's own body (parameters are not substituted: rules look at constructors, callees and match shapes)."""
+    if isinstance(node, list):
+        return [splice(F, v, chain) for v in node]
+    if not isinstance(node, dict):
+        return node
+    out = {k: splice(F, v, chain) for k, v in node.items()}
+    g = _callee_key(node) if "e" in node else None
+    if g and g in F.new_fns and g not in chain and len(chain) < 5:
+        gf = F.fns.get(g)
+        gb = body_of(gf) if gf else None
+        if gb is not None:
+            args = out.get("args") or []
+            if node.get("e") == "mcall" and out.get("recv") is not None:
+                args = [out["recv"]] + list(args)
+            return {"e": "inlined", "key": g, "ln": node.get("ln"), "ty": node.get("ty"), "args": args, "body": splice(F, gb, chain + (g,)),
+                    "file": gf.get("file")}
+    return out
+
+
 def matches(n, src=None):
     return [x for x in walk(n) if x["e"] == "match" and (src is None or x.get("src") == src)]
 
@@ -81,6 +112,48 @@ def ctors(n):
             out.append((x.get("adt"), x.get("variant"), x))
         elif x["e"] == "struct" and x.get("res") == "ctor":
             out.append((x.get("adt"), x.get("variant"), x))
+    return out
+
+
+def quantifiers(n, pred=None):
+    """the quantifier structure of an expression, outermost first: one entry per Iterator::all / Iterator::any call and per explicit loop that contains
+    a call satisfying `pred` (default: any call): 'all' (a loop left early only by `return false`), 'any' (only by `return true`), or 'unknown'
+    (a loop whose exits are not literal-bool returns: flags, breaks, computed values — the shape cannot be classified syntactically)."""
+    out = []
+    for x in walk(n):
+        if x["e"] == "mcall" and x.get("m") in ("all", "any"):
+            out.append(x["m"])
+        elif x["e"] == "loop":
+            inner_calls = [c for c in walk(x) if c["e"] in ("call", "mcall", "inlined") and (pred is None or pred(c))]
+            if not inner_calls:
+                continue
+            vals = set()
+            other = False
+            nbreak = 0
+            flags = 0
+            for r in walk(x):
+                if r["e"] == "ret":
+                    v = r.get("x")
+                    if v is not None and v["e"] == "lit" and v.get("text") in ("Bool(true)", "Bool(false)"):
+                        vals.add(v["text"] == "Bool(true)")
+                    else:
+                        other = True
+                elif r["e"] == "break":
+                    nbreak += 1
+                    if r.get("x") is not None:
+                        other = True
+                elif r["e"] == "assign" or r["e"] == "assignop":
+                    # a flag set inside the loop (`found = true; break`) decides the result outside it: not classifiable here
+                    tgt = r.get("l") or r.get("lhs") or {}
+                    if tgt.get("e") == "path" and tgt.get("res") == "local":
+                        flags += 1
+            # the desugared `for` has exactly one value-less break (iterator exhausted)
+            if nbreak > (1 if "ForLoop" in (x.get("src") or "") else 0):
+                other = True
+            if other or not vals or len(vals) > 1:
+                out.append("unknown")
+            else:
+                out.append("any" if True in vals else "all")
     return out
 
 
